@@ -19,6 +19,7 @@ from gosym.mdd import TRUE  # noqa: E402
 
 _PROG = None
 _SEED = 0
+_DEFAULT_TIMEOUT = 600
 
 
 class Job:
@@ -41,6 +42,8 @@ def _argstr(a):
         return 'sym[%d]' % a[2]
     if a[0] == 'int':
         return str(a[1])
+    if a[0] == 'tmpl':
+        return 'tmpl[' + ''.join(('?' * p) if isinstance(p, int) else bytes(p).decode('latin1') for p in a[2]) + ']'
     if a[0] == 'cbytes':
         return repr(bytes(a[1]))
     if a[0] == 'bool':
@@ -90,6 +93,20 @@ def _make_args(job, cellsout):
                     for i, m in enumerate(a[3]):
                         v = ex.store.var_of(cells[i])
                         st.pc = ex.mdd.and_byte(st.pc, v.order, m)
+            elif a[0] == 'tmpl':
+                # template: concrete skeleton bytes with runs of symbolic bytes
+                cells = []
+                for part in a[2]:
+                    if isinstance(part, int):
+                        for _ in range(part):
+                            cells.append(ex.store.newvar('%s_%d' % (a[1], len(cells)), 8, 'byte'))
+                    else:
+                        cells.extend(part)
+                cells = tuple(cells)
+                oid = ex.newobj(st, ('A', cells), ('input', a[1]))
+                ex.readonly.add(oid)
+                cellsout.append((a[1], cells))
+                out.append(('S', oid, (), 0, len(cells), len(cells)))
             elif a[0] == 'int':
                 out.append(a[1] & ((1 << 64) - 1))
             elif a[0] == 'bool':
@@ -108,7 +125,7 @@ def go_call(job, inputs):
     """Go expression calling the harness with concrete inputs"""
     parts = []
     for a in job.args:
-        if a[0] == 'bytes':
+        if a[0] == 'bytes' or a[0] == 'tmpl':
             parts.append(go_bytes(inputs[a[1]]))
         elif a[0] == 'int':
             parts.append(str(a[1]))
@@ -127,13 +144,14 @@ def _worker(job):
     res = {'label': job.label, 'harness': job.harness, 'ok': True, 'candidates': [], 'samples': [],
            'stats': {}, 'error': None, 'inexact': 0, 'unsupported': []}
     try:
-        ses = Session(_PROG, seed=_SEED, solver_timeout_ms=job.opts.get('solver_timeout_ms', 60000))
+        ses = Session(_PROG, seed=_SEED, solver_timeout_ms=job.opts.get('solver_timeout_ms', 20000))
         ex = ses.ex
         for k, v in job.opts.items():
             if k.startswith('ex.'):
                 setattr(ex, k[3:], v)
         cellsout = []
-        deadline = time.time() + job.timeout if job.timeout else None
+        tmo = job.timeout or _DEFAULT_TIMEOUT
+        deadline = time.time() + tmo if tmo else None
         terms = ses.run(job.pkg + '.' + job.harness, _make_args(job, cellsout), deadline=deadline)
         nbytes = ex.store.nbytevars
         total = 0
@@ -182,7 +200,13 @@ def _worker(job):
         res['input_space'] = ex.mdd.count(getattr(ses, 'initial_pc', TRUE), nbytes)
         res['partition_complete'] = (total == res['input_space']) if not any(st.extras for st in terms) else None
         res['stats'] = dict(ex.stats)
-        res['solver'] = dict(ex.solver.stats)
+        sv = dict(ex.solver.stats)
+        ls = ex.solver.lia.stats
+        sv['solver_s'] = sv.get('solver_s', 0) + ls['solver_s']
+        sv['lia_queries'] = ls['sat'] + ls['unsat'] + ls['unknown']
+        for k in ('sat', 'unsat', 'unknown'):
+            sv[k] = sv.get(k, 0) + ls[k]
+        res['solver'] = sv
         res['reach'] = dict(ses.reach)
         res['asserts'] = {k: list(v) for k, v in ses.asserts.items()}
         res['events'] = sorted('%s: %s' % k for k in ex.events)
@@ -240,6 +264,8 @@ class Check:
         finally:
             shutil.rmtree(work, ignore_errors=True)
         _SEED = self.seed
+        global _DEFAULT_TIMEOUT
+        _DEFAULT_TIMEOUT = 420 if self.tier == 'quick' else 2400
         self.prog = _PROG
         nproc = nproc or min(16, os.cpu_count() or 4)
         jobs = sorted(self.jobs, key=lambda j: -j.weight)
@@ -392,7 +418,7 @@ class Check:
                       'path_classes': r.get('classes'), 'inputs_covered': str(r.get('inputs_covered')),
                       'input_space': str(r.get('input_space')), 'partition_complete': r.get('partition_complete')}
                      for r in self.results],
-            'queries': {'sat': solver['sat'], 'unsat': solver['unsat'], 'unknown': solver['unknown']},
+            'queries': {'sat': solver['sat'], 'unsat': solver['unsat'], 'unknown': solver['unknown'], 'of_which_integer_encoding': solver.get('lia_queries', 0)},
             'solver_s': round(solver['solver_s'], 3),
             'ssa_instructions_executed': stats.get('instrs', 0),
             'state_merges': stats.get('merges', 0),
@@ -427,7 +453,7 @@ class Check:
             print('  %s :: %s :: native %s' % (v['what'], v['call'][:200], v['native']))
         print('%s %s: jobs=%d classes=%d states=%d queries=%d solver=%.1fs wall=%.1fs violations=%d' % (
             self.pid, self.tier, len(self.results), sum(r.get('classes') or 0 for r in self.results), cov['states'],
-            sum(cov['queries'].values()), cov['solver_s'], wall, len(self.violations)))
+            cov['queries']['sat'] + cov['queries']['unsat'] + cov['queries']['unknown'], cov['solver_s'], wall, len(self.violations)))
         if self.violations:
             return 1
         return 0
